@@ -14,7 +14,7 @@ pub fn prop() -> Prop {
     Prop {
         id: "C09",
         level: "model_checking",
-        rule: "all streams of <=3 rows {k,v,id} over the 12 group keys {\"a\",\"b\",\"\",\"é\",1,null,absent,\"ab\",\"null\",[\"a\"], a key ending in a backslash, a key holding backslash-t} and of 4 (thorough <=6) rows over a 7-key core of them (including the empty stream and streams whose every row is dropped) x 16 upstream pipelines (--skip 1 --take 2^64-1; --unique on a selection without the key; two selections under one name; take 35 and skip 3 take 100 among them; none, select, select of the key only (so that rows repeat), filter, unique, sort by id desc, sort by the mixed-type key, skip+take, split, take 0, select+sort+skip+take) x {--group-by=.k, --group-by=(get . \"k\"), --group-by=.k#0 (a key selection with an index step), --merge} x {json, text output}; long cyclic streams of 17, 40, 300 and 1100 rows; streams with 15..257 distinct keys each coming back; half of the cases of up to 40 rows also with the rows given as files (one row per file; two files); non-trivial = two rows share a key or a row is dropped for its key; distinct by construction; all streams of <=3 rows of every type (arrays, the empty array, objects, scalars, null) through --merge and a --group-by on the type, as input values and as split items, also behind --unique and --sort-by",
+        rule: "all streams of <=3 rows {k,v,id} over the 15 group keys {a key with a blank in front, one with a blank behind and one that is a blank (blanks are part of a key), \"a\",\"b\",\"\",\"é\",1,null,absent,\"ab\",\"null\",[\"a\"], a key ending in a backslash, a key holding backslash-t} and of 4 (thorough <=6) rows over an 8-key core of them (including the empty stream and streams whose every row is dropped) x 16 upstream pipelines (--skip 1 --take 2^64-1; --unique on a selection without the key; two selections under one name; take 35 and skip 3 take 100 among them; none, select, select of the key only (so that rows repeat), filter, unique, sort by id desc, sort by the mixed-type key, skip+take, split, take 0, select+sort+skip+take) x {--group-by=.k, --group-by=(get . \"k\"), --group-by=.k#0 (a key selection with an index step), --merge} x {json, text output}; long cyclic streams of 17, 40, 300 and 1100 rows; streams with 15..257 distinct keys each coming back; half of the cases of up to 40 rows also with the rows given as files (one row per file; two files); non-trivial = two rows share a key or a row is dropped for its key; distinct by construction; all streams of <=3 rows of every type (arrays, the empty array, objects, scalars, null) through --merge and a --group-by on the type, as input values and as split items, also behind --unique and --sort-by",
         explanation: "exactly one value must be printed, after the input ended; it is compared (a) with the documented grouping applied to the rows the same pipeline prints without grouping (differential) and (b) with the reference pipeline",
         assumptions: COMMON_ASSUMPTIONS.to_vec(),
         guards: vec!["rows-given-as-files", "rows-that-are-arrays", "command-line-respelled", "many-distinct-keys", "empty-input", "no-row-survives", "non-string-key-dropped", "absent-key-dropped", "two-rows-share-a-key", "limiter-before-grouper", "empty-string-key", "non-ascii-key", "text-output"],
@@ -26,7 +26,7 @@ pub fn prop() -> Prop {
 }
 
 fn keys() -> Vec<Option<V>> {
-    vec![Some(V::s("a")), Some(V::s("b")), Some(V::s("")), Some(V::s("é")), Some(V::int(1)), Some(V::Null), None, Some(V::s("ab")), Some(V::s("null")), Some(V::Arr(vec![V::s("a")])), Some(V::s("a\\")), Some(V::s("x\\ty"))]
+    vec![Some(V::s("a")), Some(V::s("b")), Some(V::s("")), Some(V::s("é")), Some(V::int(1)), Some(V::Null), None, Some(V::s("ab")), Some(V::s("null")), Some(V::Arr(vec![V::s("a")])), Some(V::s("a\\")), Some(V::s("x\\ty")), Some(V::s(" a")), Some(V::s("a ")), Some(V::s(" "))]
 }
 
 struct Up {
@@ -252,7 +252,7 @@ fn run(ctx: &mut Ctx) {
     for len in 0..=maxlen {
         // every key for streams of <= 3 rows; longer streams over a 7-key core (two strings, the empty string, a number,
         // null, an absent key, a key that ends in a backslash)
-        const CORE_KEYS: [usize; 7] = [0, 1, 2, 4, 5, 6, 10];
+        const CORE_KEYS: [usize; 8] = [0, 1, 2, 4, 5, 6, 10, 12];
         let mut todo: Vec<Vec<usize>> = Vec::new();
         if len <= 3 {
             crate::explore::seqs_exact(ks.len(), len, |i| todo.push(i.to_vec()));
